@@ -658,7 +658,9 @@ DEPS = {
     'C16': ['C14', 'C10'],
     'C17': ['C06', 'C07', 'C09', 'C14', 'C10'],
     'C18': ['C08', 'C10', 'C11', 'C12', 'C13', 'C14', 'C16'],
-    'C19': ['C08', 'C11', 'C16'],
+    # "the event-source analysis equals the FIFO analysis on a dedicated processor", "every ROS 2 analysis gives the same
+    # result for the three equivalent supplies": each side must compute its own defining equation (the exactness clauses)
+    'C19': ['C08', 'C11', 'C16', 'C06', 'C07'],
     # the library's own debug cross-checks compare the kernel with its brute-force sibling: a kernel that leaves its
     # specification makes debug builds panic where release builds return
     'C20': ['C08'],
